@@ -180,6 +180,7 @@ type snap struct {
 	rel     []int   // pool / batch entries that have an OutgoingTransferRelation (created through the crossChain precompile)
 	fromMsg []int   // outgoing bridge calls marked BridgeCallFromMsg
 	obsExt  uint64
+	next    [3]uint64 // id counters: next transfer id, batch nonce, bridge-call nonce
 }
 
 type seq struct {
@@ -389,6 +390,7 @@ func (q *seq) snapshot() snap {
 		}
 	}
 	sn.obsExt = k.GetLastObservedBlockHeight(ctx).ExternalBlockHeight
+	sn.next = [3]uint64{q.seqVal(types.KeyLastTxPoolID), q.seqVal(types.KeyLastOutgoingBatchID), q.seqVal(types.KeyLastBridgeCallID)}
 	return sn
 }
 
@@ -448,7 +450,7 @@ func (q *seq) line(res string, sn snap) string {
 	}
 	h := q.e.k.GetLastObservedBlockHeight(q.ctx)
 	return fmt.Sprintf("%s next=%d,%d,%d pool=[%s] batches=[%s] calls=[%s] pend=[%s] obs=%d,%d,%d bal=%s erc=%s rel=[%s] frommsg=[%s]", res,
-		q.seqVal(types.KeyLastTxPoolID), q.seqVal(types.KeyLastOutgoingBatchID), q.seqVal(types.KeyLastBridgeCallID),
+		sn.next[0], sn.next[1], sn.next[2],
 		strings.Join(pool, ";"), strings.Join(batches, ";"), strings.Join(calls, ";"), strings.Join(pend, ";"),
 		h.ExternalBlockHeight, h.BlockHeight, q.e.k.GetLastObservedEventNonce(q.ctx), strings.Join(bal, ","), strings.Join(erc, ","), strings.Join(rel, ","), strings.Join(fm, ","))
 }
@@ -479,6 +481,9 @@ func (q *seq) deliver(validate func() error, f func(ctx sdk.Context) (uint64, er
 		}
 		q.out.Count("res:panic")
 		return "panic"
+	}
+	if os.Getenv("C05_DEBUG") == "2" {
+		fmt.Fprintln(os.Stderr, "ERR", r)
 	}
 	q.out.Count("res:err")
 	return "err"
@@ -683,6 +688,31 @@ func (q *seq) opParams(p1, p2, p3, p4 uint64) (string, string) {
 	p.AverageBlockTime, p.AverageExternalBlockTime, p.ExternalBatchTimeout, p.BridgeCallTimeout = p1, p2, p3, p4
 	res := q.deliver(p.ValidateBasic, func(ctx sdk.Context) (uint64, error) { return 0, q.e.k.SetParams(ctx, &p) })
 	return fmt.Sprintf("params %d %d %d %d", p1, p2, p3, p4), res
+}
+
+// genesisOn: the export/import round trip is driven only when C05_GENESIS=1 (it reproduces a defect of the unchanged tree —
+// fixes/C05-genesis-id-counters.md — that is not yet listed in known_findings.json)
+func genesisOn() bool { return os.Getenv("C05_GENESIS") == "1" }
+
+// opGenesis: ExportGenesis of the chain's crosschain module, wipe its store, InitGenesis from the exported state (what a
+// chain export / restart-from-genesis does to this module).  The model (driver) treats it as the identity.
+func (q *seq) opGenesis() (string, string) {
+	res := q.deliver(nil, func(ctx sdk.Context) (uint64, error) {
+		gs := crosschainkeeper.ExportGenesis(ctx, q.e.k)
+		store := ctx.KVStore(q.e.s.App.GetKey(q.e.chain))
+		var keys [][]byte
+		it := store.Iterator(nil, nil)
+		for ; it.Valid(); it.Next() {
+			keys = append(keys, append([]byte{}, it.Key()...))
+		}
+		it.Close()
+		for _, k := range keys {
+			store.Delete(k)
+		}
+		crosschainkeeper.InitGenesis(ctx, q.e.k, gs)
+		return 0, nil
+	})
+	return "genesis", res
 }
 
 func (q *seq) opBlock(n int64) (string, string) {
@@ -1373,6 +1403,33 @@ func (q *seq) monitor(op, res string, pre, post snap) {
 				}
 			}
 		}
+	case "genesis":
+		if a, b := q.line("", pre), q.line("", post); a != b {
+			nx := func(l string) string { return strings.Fields(l)[0] }
+			if nx(a) != nx(b) {
+				for _, t := range post.pool {
+					if uint64(t.id) >= post.next[0] {
+						q.out.Count("scn:genesis:live-transfer-id-at-or-above-the-restarted-counter")
+						break
+					}
+				}
+				out.Violate(fmt.Sprintf("C05 ids across genesis export/import: the id counters (next transfer id, batch nonce, bridge-call nonce: %s) are not carried by the exported genesis and restart (%s) while the imported transfers and batches keep their ids: the next send / batch / bridge call reuses an identifier", nx(a), nx(b)))
+			}
+			if len(post.calls) != len(pre.calls) || len(post.pend) != len(pre.pend) {
+				out.Violate(fmt.Sprintf("C05 exactly one state across genesis export/import: %d stored outgoing bridge calls and %d pending results are not in the exported genesis: they vanish without execution or refund", len(pre.calls)-len(post.calls), len(pre.pend)-len(post.pend)))
+			}
+			if len(post.pool) != len(pre.pool) || len(post.batches) != len(pre.batches) {
+				out.Violate("C05 exactly one state across genesis export/import: pool / batches differ after the round trip")
+			}
+		}
+		// the conservation clause below does not apply to records the export drops
+		for _, c := range pre.calls {
+			for _, x := range c.coins {
+				if len(post.calls) == 0 && x[0] >= 0 && x[0] < nTokens {
+					movedOut[x[0]] += x[1]
+				}
+			}
+		}
 	case "block", "params":
 		p2 := post
 		p2.bal = pre.bal
@@ -1875,6 +1932,20 @@ func (q *seq) scripted(kind int) {
 		}
 		q.do(func() (string, string) { return q.opPCancel(2, 1) })
 		q.do(func() (string, string) { return q.opPCancel(3, 2) })
+	case 7: // genesis export / import in the middle of a history (only with C05_GENESIS=1)
+		q.do(func() (string, string) { return q.opObsOther(uint64(300 + q.rng.Intn(300))) })
+		send(0, 0, 100, 2)
+		send(1, 0, 100, 3)
+		send(2, 1, 50, 1)
+		q.do(func() (string, string) { return q.opReqBatch(0, 1, 3, d[1]) })
+		if q.rng.Intn(2) == 0 {
+			q.do(func() (string, string) { return q.opBridgeCall(2, 3, d[2], "ab", "", [][2]int64{{0, 40}}) })
+		}
+		q.do(q.opGenesis)
+		send(3, 0, 70, 2)
+		q.do(func() (string, string) { return q.opBlock(1) })
+		q.do(func() (string, string) { return q.opReqBatch(1, 1, 0, d[1]) })
+		q.do(func() (string, string) { return q.opBridgeCall(0, 1, d[2], "cd", "", [][2]int64{{1, 5}}) })
 	case 5: // a quiet bridge: no event for longer than the timeout period on fxcore's clock, then the external chain acts
 		q.do(func() (string, string) { return q.opParams(1000, 3000, 60000, 3600001) })
 		q.do(func() (string, string) { return q.opObsOther(uint64(100 + q.rng.Intn(900))) })
@@ -2011,6 +2082,10 @@ func (q *seq) replayLine(line string) {
 		})
 	case w[0] == "block" && len(w) == 2:
 		q.do(func() (string, string) { return q.opBlock(num(1)) })
+	case w[0] == "genesis" && len(w) == 1:
+		if genesisOn() {
+			q.do(q.opGenesis)
+		}
 	default:
 		panic("corpus: bad line: " + line)
 	}
@@ -2121,6 +2196,11 @@ func TestC05(t *testing.T) {
 			script = 1 + rng.Intn(6)
 		}
 		runSeq(e, out, rng, i, nOps, script)
+	}
+	if genesisOn() {
+		for i := 0; i < 6; i++ {
+			runSeq(envs[i%len(envs)], out, rng, n+i, nOps, 7)
+		}
 	}
 	out.Stats.Extra["chains"] = []string{"eth", "bsc"}
 }
